@@ -170,6 +170,46 @@ fn interpret<'a>(root: View<'a>, root_region: &'a ByteRegion, ops: &[VOp]) {
                 );
                 None
             }
+            ("read_exact", View::Stream(s)) => {
+                // all n bytes or an error (the scenario asks for no more than what is left; if it does, a plain read)
+                let n = std::cmp::min(o.n, s.size_left()) as usize;
+                let mut buf = vec![0u8; n];
+                match s.read_exact(&mut buf) {
+                    Ok(()) => emit(
+                        json!({"ev":"Obs","op":"read_exact","view":o.v,"kind":"read","n":n,"got":n,"bytes":hex(&buf),
+                            "size":s.size(),"offset":s.offset(),"sizeLeft":s.size_left()}),
+                    ),
+                    Err(e) => emit(
+                        json!({"ev":"Obs","op":"read_exact","view":o.v,"kind":"err","err":e.to_string()}),
+                    ),
+                }
+                None
+            }
+            ("read_to_end", View::Stream(s)) => {
+                // into a vector that already holds something: the contract is to append
+                let marker = b"\xA5keep\x5A".to_vec();
+                let mut v = marker.clone();
+                match s.read_to_end(&mut v) {
+                    Ok(got) => {
+                        if v.len() < marker.len() || v[..marker.len()] != marker[..] || v.len() != marker.len() + got {
+                            emit(
+                                json!({"ev":"Obs","op":"read_to_end","view":o.v,"kind":"err",
+                                    "err":format!("read_to_end returned {} and left a vector of {} bytes whose first {} bytes were {}",
+                                        got, v.len(), marker.len(), if v.len() >= marker.len() && v[..marker.len()] == marker[..] {"kept"} else {"overwritten"})}),
+                            );
+                        } else {
+                            emit(
+                                json!({"ev":"Obs","op":"read_to_end","view":o.v,"kind":"read","n":got,"got":got,"bytes":hex(&v[marker.len()..]),
+                                    "size":s.size(),"offset":s.offset(),"sizeLeft":s.size_left()}),
+                            );
+                        }
+                    }
+                    Err(e) => emit(
+                        json!({"ev":"Obs","op":"read_to_end","view":o.v,"kind":"err","err":e.to_string()}),
+                    ),
+                }
+                None
+            }
             ("get_slice", View::Region(r)) => {
                 let b = r
                     .get_slice(jbk::Offset::from(o.a), o.n as usize)
